@@ -5,6 +5,7 @@
 import ast
 from ast import ClassDef, Constant, Expr, FunctionDef, Load, Name
 from collections import OrderedDict
+from copy import deepcopy
 from functools import partial
 from itertools import chain
 from typing import Optional
@@ -111,7 +112,8 @@ def class_(
             internal_body: ClassDef.body = list(
                 map(
                     ast.fix_missing_locations,
-                    map(RewriteName(param_names).visit, internal_body),
+                    # copies: the caller's body keeps its bare names (`a`, not `self.a`) for whatever is emitted next
+                    map(RewriteName(param_names).visit, map(deepcopy, internal_body)),
                 )
             )
         elif (returns or {"return_type": None}).get("return_type") is not None:
